@@ -213,17 +213,19 @@ pub fn block(name: &str, c: &AlphaCtx, out: &mut Vec<Op>) {
                 }
             }
         }
-        "pred" => {
+        "pred" | "predlite" => {
             let reps = c.classes.present_reps();
-            let nrep = reps.len() as u64;
+            let nrep = if name == "pred" { reps.len() as u64 } else { 0 };
             let mut preds: Vec<(u32, u64)> = vec![(0, 0), (0, 1), (0, 2), (0, 3), (0, 4), (0, 5)];
             for &r in &reps {
                 preds.push((r, 6));
                 preds.push((r, 7));
             }
-            for mask in 0..(1u64 << nrep) {
-                preds.push((0, 8 | mask << 20));
-                preds.push((0, 9 | mask << 20));
+            if nrep > 0 {
+                for mask in 0..(1u64 << nrep) {
+                    preds.push((0, 8 | mask << 20));
+                    preds.push((0, 9 | mask << 20));
+                }
             }
             for &(k, p) in &preds {
                 out.push(Op::new(OpK::Retain, k, p));
@@ -284,6 +286,18 @@ pub fn block(name: &str, c: &AlphaCtx, out: &mut Vec<Op>) {
                 out.push(Op::arg(OpK::TryReserve, (1u64 << sh) - 1));
             }
         }
+        "withcap" => {
+            if c.layer == 0 && c.len == 0 && c.next_key == 0 {
+                for n in 0..=1100u64 {
+                    out.push(Op::arg(OpK::WithCapacity, n));
+                }
+                for sh in 11..=20u32 {
+                    for d in [-1i64, 0, 1] {
+                        out.push(Op::arg(OpK::WithCapacity, ((1i64 << sh) + d) as u64));
+                    }
+                }
+            }
+        }
         "clone" => {
             out.push(Op::k(OpK::CloneReplace));
             for s in 0..4 {
@@ -294,11 +308,13 @@ pub fn block(name: &str, c: &AlphaCtx, out: &mut Vec<Op>) {
     }
 }
 
+/// `a+b/c+d`: layer 0 uses blocks a,b; every later layer uses c,d (the last part repeats).
 pub fn by_name(name: &str) -> Box<dyn Fn(&AlphaCtx) -> Vec<Op>> {
-    let blocks: Vec<String> = name.split('+').map(|s| s.to_string()).collect();
+    let layers: Vec<Vec<String>> = name.split('/').map(|l| l.split('+').map(|s| s.to_string()).collect()).collect();
     Box::new(move |c: &AlphaCtx| {
         let mut out = vec![];
-        for b in &blocks {
+        let blocks = &layers[c.layer.min(layers.len() - 1)];
+        for b in blocks {
             block(b, c, &mut out);
         }
         // de-duplicate, keep order (simplest first)
@@ -306,4 +322,9 @@ pub fn by_name(name: &str) -> Box<dyn Fn(&AlphaCtx) -> Vec<Op>> {
         out.retain(|o| seen.insert(*o));
         out
     })
+}
+
+/// Ops whose successor is checked but not expanded further (they leave the key universe).
+pub fn is_probe(op: Op) -> bool {
+    matches!(op.k, OpK::FillToCap)
 }
